@@ -846,6 +846,26 @@ package cbor
 //@   loop 1:
 //@     invariant forall j in old(ncalls(cbor2JsonOneObject))..ncalls(cbor2JsonOneObject): callarg(cbor2JsonOneObject, j, 1) == dst
 
+// C17: the byte-slice and string wrappers return whatever was decoded before an error, error or not
+// (every event wholly contained in a torn stream is still delivered); text input is returned as is.
+//@ track Cbor2JsonManyObjects, Buffer.Bytes, Buffer.String
+//@ func DecodeIfBinaryToBytes(in) res
+//@   props C17
+//@   arith int
+//@   flag tags binary_log
+//@   flag replay cbor_decode_total
+//@   ensures ncalls(Cbor2JsonManyObjects) <= old(ncalls(Cbor2JsonManyObjects)) + 1
+//@   ensures ncalls(Cbor2JsonManyObjects) == old(ncalls(Cbor2JsonManyObjects)) + 1 ==> ncalls(Buffer.Bytes) == old(ncalls(Buffer.Bytes)) + 1 && same(res, callres(Buffer.Bytes, old(ncalls(Buffer.Bytes)), 0))
+//@   ensures ncalls(Cbor2JsonManyObjects) == old(ncalls(Cbor2JsonManyObjects)) ==> same(res, in)
+
+//@ func DecodeIfBinaryToString(in) res
+//@   props C17
+//@   arith int
+//@   flag tags binary_log
+//@   flag replay cbor_decode_total
+//@   ensures ncalls(Cbor2JsonManyObjects) <= old(ncalls(Cbor2JsonManyObjects)) + 1
+//@   ensures ncalls(Cbor2JsonManyObjects) == old(ncalls(Cbor2JsonManyObjects)) + 1 ==> ncalls(Buffer.String) == old(ncalls(Buffer.String)) + 1 && res == callres(Buffer.String, old(ncalls(Buffer.String)), 0)
+
 // tag 260 (network address): the text is net.IP.String / net.HardwareAddr.String
 // of the payload bytes (the same library functions the JSON build uses). Only this
 // clause is checked here (props NONE): the function's safety obligations belong to
